@@ -98,7 +98,7 @@ func Run(p gsim.Plan) (v hk.Verdict) {
 			// dependants that already existed when the handler reported success must be gone (a dependant created
 			// by the external party after the handler ran is a race outside the statement)
 			for ck, cr := range cur {
-				if ck.Typ == hres.TypeGC && cr.Owner == "" && cr.Labels["parent"] == k.ID && last >= 0 && createdAt[ck] < r.Handler[last].StartLen {
+				if (ck.Typ == hres.TypeGC || ck.Typ == hres.TypeGD) && cr.Owner == "" && cr.Labels["parent"] == k.ID && last >= 0 && createdAt[ck] < r.Handler[last].StartLen {
 					v.Failf("%s (v) commit #%d removes the cleanup finalizer from %s while dependant %s (created at commit #%d, before the successful handler call started at log length %d) still exists; log: %s",
 						ctx, i, c.New, cr, createdAt[ck], r.Handler[last].StartLen, head(r.Log, i))
 				}
